@@ -211,6 +211,32 @@ impl Prop for C05 {
         out.push(Case { id: format!("{};n={}", cell, i), cell, input: json!({"stmts": stmts.iter().map(sj).collect::<Vec<_>>()}) });
       }
     }
+    // (2c') functions written as MATCH ARMS (also recursive / tail recursive), called where variables of the caller are named like
+    // the parameter and like the pattern variables: the call defines nothing but its target, also when it fails
+    let armfns: [(&str, &str, &str); 5] = [
+      ("is-zero", "is-zero(x<u64>) => <u64>\n  | 0 => 1u64\n  | n => 0u64.", "is-zero(0u64)"),
+      ("arm-var", "twice(x<u64>) => <u64>\n  | n => n + n.", "twice(4u64)"),
+      ("countdown", "cnt(x<u64>) => <u64>\n  | 0 => 0u64\n  | n => cnt(n - 1u64).", "cnt(3u64)"),
+      ("pair", "addp(x<u64>, y<u64>) => <u64>\n  | (0, n) => n\n  | (m, n) => m + n.", "addp(2u64, 3u64)"),
+      ("no-arm", "only0(x<u64>) => <u64>\n  | 0 => 1u64.", "only0(5u64)"),
+    ];
+    for (i, (fname, def, call)) in armfns.iter().enumerate() {
+      for m in ["", "~"] { for form in ["define", "bare", "with-variable"] {
+        let callsrc = match form { "define" => format!("r := {}", call), "bare" => call.to_string(), _ => format!("r := {}", call.replace("0u64)", "x)").replace("4u64)", "x)").replace("3u64)", "x)").replace("5u64)", "x)")) };
+        let tg: Vec<String> = if callsrc.starts_with("r :=") { vec!["r".into()] } else { vec![] };
+        let stmts = vec![
+          Stmt { src: def.to_string(), targets: vec![], expect: "ok-or-err", what: "define-function".into() },
+          Stmt { src: format!("{}x := 5u64", m), targets: vec!["x".into()], expect: "ok-or-err", what: "define".into() },
+          Stmt { src: format!("{}n := 7u64", m), targets: vec!["n".into()], expect: "ok-or-err", what: "define".into() },
+          Stmt { src: "y := 9u64".into(), targets: vec!["y".into()], expect: "ok-or-err", what: "define".into() },
+          Stmt { src: callsrc.clone(), targets: tg.clone(), expect: "ok-or-err", what: format!("call-arm-function-{}", fname) },
+          Stmt { src: "v := 1".into(), targets: vec!["v".into()], expect: "ok-or-err", what: "define".into() },
+          Stmt { src: if m.is_empty() { "w2 := n + x".to_string() } else { "n = 2u64".to_string() }, targets: if m.is_empty() { vec!["w2".into()] } else { vec!["n".into()] }, expect: "ok-or-err", what: "use-after-call".into() },
+        ];
+        let cell = format!("armcall;fn={};mutable={};form={}", fname, !m.is_empty(), form);
+        out.push(Case { id: format!("{};n={}", cell, i), cell, input: json!({"stmts": stmts.iter().map(sj).collect::<Vec<_>>()}) });
+      } }
+    }
     // (2d) the op-assignment kernels are also callable by name: a call with an immutable variable must not change it
     for (i, f) in ["math/add-assign", "math/sub-assign", "math/mul-assign", "math/div-assign"].iter().enumerate() {
       for (kn, litv, rhs) in [("scalar", "5", "2"), ("matrix", "[1 2 3]", "2"), ("matrix-matrix", "[1 2 3]", "[4 5 6]")] {
